@@ -77,7 +77,7 @@ def build_harness(race=False, tags="verif"):
 TLC_JAR = "/opt/veriftools/tla/tla2tools.jar:/opt/veriftools/tla/CommunityModules-deps.jar"
 
 
-def run_tlc(scratch, module, cfg_text, workers=None, env=None, timeout=600, extra=None, name=None, heap=None):
+def run_tlc(scratch, module, cfg_text, workers=None, env=None, timeout=600, extra=None, name=None, heap=None, extra_files=None):
     """Run TLC on spec/<module>.tla with the given configuration text in a
     private copy.  Returns a dict with the parsed summary.  Raises
     Inconclusive on timeouts and tool errors; an invariant violation *of the
@@ -88,6 +88,9 @@ def run_tlc(scratch, module, cfg_text, workers=None, env=None, timeout=600, extr
     for f in os.listdir(SPEC):
         if f.endswith(".tla"):
             shutil.copyfile(os.path.join(SPEC, f), os.path.join(d, f))
+    for fn, text in (extra_files or {}).items():
+        with open(os.path.join(d, fn), "w") as f:
+            f.write(text)
     with open(os.path.join(d, name + ".cfg"), "w") as f:
         f.write(cfg_text)
     w = str(workers or NPROC)
